@@ -363,7 +363,7 @@ NAN = float('nan')
 INF = float('inf')
 
 WIRE_KINDS = [None, True, False, 0, 1, -1, 7, 2 ** 70, 10 ** 400, 1.0, 1.5, -0.0, NAN, INF, -INF, 1e308, '', 'a', 'abc', '5', 'YWJj',
-              'a!b@c#=d', [], [1], [1, 2, 3], ['a'], [['a', 1]], {}, {'a': 1}, {'zz': None}]
+              'a!b@c#=d', 'a\x00b', '\x00', 'YQ=', 'YR==', [], [1], [1, 2, 3], ['a'], [['a', 1]], {}, {'a': 1}, {'zz': None}]
 DRIVER_KINDS = WIRE_KINDS + [b'', b'ab', b'abc', (), (1,), (1, 2), ('a',), enum_member('a', 1), enum_member('zz', 77),
                              enum_member('off', 0)]
 
